@@ -59,9 +59,16 @@ def build(rnd, tier, flags):
     return case, progs.excluded_counts(g, lay)
 
 
+def _strip(text):
+    try:
+        return lexer.strip_blanks(text)
+    except lexer.LexError:
+        return "<unlexable>" + text        # observed output that cannot be lexed is a mismatch, not a harness error
+
+
 def _describe(item):
     if isinstance(item, RF.Line):
-        return {"text": lexer.strip_blanks(item.line), "label": item.label, "name": item.name, "span": list(item.span)}
+        return {"text": _strip(item.line), "label": item.label, "name": item.name, "span": list(item.span)}
     return {"comment": getattr(item, "comment", None), "span": list(getattr(item, "span", ()) or ()),
             "cls": type(item).__name__}
 
